@@ -114,7 +114,8 @@ type failConn struct {
 	hold    bool
 	blocked int // writers that have arrived at the gate (cumulative)
 	passed  int // writes completed (cumulative)
-	gate    chan struct{}
+	gate    chan struct{}   // closed by Unhold: everybody passes
+	waiters []chan struct{} // one per writer standing at the gate, in order of arrival
 }
 
 func (c *failConn) WriteTo(b []byte, a net.Addr) (int, error) {
@@ -125,12 +126,18 @@ func (c *failConn) WriteTo(b []byte, a net.Addr) (int, error) {
 		c.failN--
 	}
 	hold, gate := c.hold, c.gate
+	var mine chan struct{}
 	if hold {
 		c.blocked++
+		mine = make(chan struct{})
+		c.waiters = append(c.waiters, mine)
 	}
 	c.mu.Unlock()
 	if hold {
-		<-gate
+		select {
+		case <-mine:
+		case <-gate:
+		}
 	}
 	var n int
 	var err error
@@ -154,6 +161,7 @@ func (c *failConn) Hold() {
 	c.mu.Lock()
 	c.hold = true
 	c.gate = make(chan struct{})
+	c.waiters = nil
 	c.mu.Unlock()
 }
 
@@ -184,18 +192,32 @@ func (c *failConn) WaitBlocked(seen int, max time.Duration) bool {
 	return false
 }
 
-// Release lets exactly one waiting writer through and waits until its write is done.
-func (c *failConn) Release(max time.Duration) bool {
-	_, p0 := c.counters()
-	c.mu.Lock()
-	gate := c.gate
-	c.mu.Unlock()
-	select {
-	case gate <- struct{}{}:
-	case <-time.After(max):
+// Release lets exactly one waiting writer through — the one that arrived first, or (newest) the one that arrived
+// last — and waits until its write is done.
+func (c *failConn) Release(max time.Duration, newest bool) bool {
+	deadline := time.Now().Add(max)
+	var w chan struct{}
+	for w == nil && time.Now().Before(deadline) {
+		c.mu.Lock()
+		if n := len(c.waiters); n > 0 {
+			if newest {
+				w = c.waiters[n-1]
+				c.waiters = c.waiters[:n-1]
+			} else {
+				w = c.waiters[0]
+				c.waiters = c.waiters[1:]
+			}
+		}
+		c.mu.Unlock()
+		if w == nil {
+			time.Sleep(50 * time.Microsecond)
+		}
+	}
+	if w == nil {
 		return false
 	}
-	deadline := time.Now().Add(max)
+	_, p0 := c.counters()
+	close(w)
 	for time.Now().Before(deadline) {
 		if _, p := c.counters(); p > p0 {
 			return true
@@ -337,7 +359,7 @@ func execScript(args []string) (res result) {
 	for _, t := range args[1:] {
 		if t == "@H" {
 			heldScript = true
-		} else if strings.HasPrefix(t, "@") && t != "@R" && t != "@U" {
+		} else if strings.HasPrefix(t, "@") && t != "@R" && t != "@RL" && t != "@U" {
 			timedScript = true
 		}
 	}
@@ -454,15 +476,15 @@ func execScript(args []string) (res result) {
 		}
 	}
 	for _, t := range args[1:] {
-		if t == "@H" || t == "@R" || t == "@U" {
+		if t == "@H" || t == "@R" || t == "@RL" || t == "@U" {
 			// hold the connection / let one blocked write through / open the gate (not events of the model)
 			switch t {
 			case "@H":
 				conn.Hold()
 				gated = true
 				seenBlocked, _ = conn.counters()
-			case "@R":
-				if !conn.Release(2 * time.Second) {
+			case "@R", "@RL":
+				if !conn.Release(2*time.Second, t == "@RL") {
 					res.suspicious = true
 					res.why += "norelease "
 				}
@@ -1270,6 +1292,11 @@ func directedHeld() [][]string {
 		// ProcessPacket: StopHunt / Close between the lookup of the sender and the write of the spoof reply
 		{std, s1, "W,0,0", "@H", who(m1, ipA), "T," + m1, "@R", "RR,0", "@U", who(m1, ipA), "RR,0"},
 		{std, s1, "W,0,0", "@H", who(m1, ipA), "C", "@R", "RR,0", "@U", who(m1, ipA), "RR,0"},
+		// RECORDED FINDING (restore is not always the last frame): the spoof reply to m1's who-has-router is decided
+		// under the lock and held inside WriteTo; StopHunt(m1); at the tick the loop's restore is written (released
+		// first, @RL = newest writer); then the held forged reply is written AFTER the restoring packet
+		{std, "@0", s1, "W,0,0", "@3800", "@H", who(m1, ipA), "T," + m1, "@5850", "L,0", "K,0", "@RL", "D,0,0", "@R", "RR,0", "@U",
+			"@11850", "W,0,0"},
 		// Scan: Close between the h.closed test and the write of a request: that request leaves, the scan ends
 		{smallLAN.tok(), "@H", "AS", "SC,0", "C", "@R", "SS,0", "@U", "SC,0", "SS,0"},
 	}
